@@ -99,7 +99,7 @@ int main(int argc, char ** argv) {
         static tc_t H;
         char fr[3][600], info[300];
         int k, i, idx[6], bi, KH = mc_thorough ? 6 : 5;
-        tc_heap_len = 16; tc_init(&H, mt_cmds, 256, 8);
+        tc_heap_len = 16; tc_init(&H, mt_cmds, 256, 2);        /* a queue of 2: the histories overflow it */
         for (bi = 0; bi < 3; bi++) {
             size_t o = 0;
             tc_reinit(&H, mt_cmds); tr_reset();
@@ -179,6 +179,26 @@ int main(int argc, char ** argv) {
             n_pairs++; n_nontrivial++;
             if (TRN != fresh[b].trn || memcmp(TR, fresh[b].tr, TRN) || OUTN != fresh[b].outn || memcmp(OUT, fresh[b].out, OUTN))
                 mc_viol("c09/state-leaks-after-input-overrun", "fragment [%s], overrun, then B [%s]: trace [%s] output [%s]; B on a fresh context: trace [%s] output [%s]", mc_es(frags[f]), mc_e(mb, (size_t) bl), mc_es(TR), mc_e(OUT, OUTN), mc_es(fresh[b].tr), mc_e(fresh[b].out, fresh[b].outn));
+        }
+    }
+    /* A terminated by a bare CR and by CR LF (single units, among them the ones with an invalid character), then B */
+    {
+        static const char * term[2] = {"\r", "\r\n"};
+        int ti;
+        for (ti = 0; ti < 2; ti++) for (a = 0; a < NU; a++) for (b = 0; b < NU; b++) {
+            int al, bl;
+            if (strchr(units[a], '\n')) continue;
+            if (!MC_CASE()) continue;
+            al = sprintf(ma, "%s%s", units[a], term[ti]);
+            bl = make_msg(b, mb);
+            mc_case_tag = "cr-terminated-pair"; mc_case_s[0] = (const unsigned char *) ma; mc_case_n[0] = (size_t) al; mc_case_s[1] = (const unsigned char *) mb; mc_case_n[1] = (size_t) bl;
+            tc_reinit(&T, mt_cmds); tr_reset();
+            SCPI_Input(&T.ctx, ma, al);
+            if (T.ctx.buffer.position != 0) { mc_viol("c09/terminated-message-left-in-buffer", "A [%s] is terminated but %d bytes stay buffered", mc_e(ma, (size_t) al), (int) T.ctx.buffer.position); continue; }
+            run_b(mb, bl);
+            n_pairs++;
+            if (TRN != fresh[b].trn || memcmp(TR, fresh[b].tr, TRN) || OUTN != fresh[b].outn || memcmp(OUT, fresh[b].out, OUTN))
+                mc_viol("c09/trace-differs", "A [%s] then B [%s]: trace [%s] output [%s]; B on a fresh context: trace [%s] output [%s]", mc_e(ma, (size_t) al), mc_e(mb, (size_t) bl), mc_es(TR), mc_e(OUT, OUTN), mc_es(fresh[b].tr), mc_e(fresh[b].out, fresh[b].outn));
         }
     }
     /* a LONG message A (255 .. 70000 bytes of valid units) in an input buffer that holds it, delivered whole and in two chunks, then B:
